@@ -95,6 +95,8 @@ def run(rep, tier, seed):
                           {"outcome": r.outcome, "accepted": bad[:2]},
                           "S-overrate")
 
+    rep.confirm = replay
+
 
 def replay(payload):
     if payload.get("overrate"):
